@@ -1304,3 +1304,84 @@ func c09r9(rc *core.RC) {
 	}
 	rc.Check(okC, ckey, bfd.Pos(), "every success return leaves the cursor on the last byte of a 4-digit escape (+3) or of a surrogate pair (+9); got %v", bd)
 }
+
+// ---- C09.R10 every byte the reader delivered is counted, whatever came with it ----
+
+// io.Reader may return n > 0 together with io.EOF or another error. (*Stream).read therefore has to
+// add n to s.length on every path from the Read call to a return: a return taken first (for example
+// on io.EOF) leaves the last bytes in the buffer but outside the window's length.
+func c09r10(rc *core.RC) {
+	p := rc.P
+	fd := p.Func("decoder", "Stream.read")
+	key := "decoder.(*Stream).read/delivered-bytes-counted"
+	if fd == nil {
+		rc.Unknown(key, token.NoPos, "not found")
+		return
+	}
+	rc.Touch("decoder.(*Stream).read")
+	info := p.Info(fd)
+	cf := core.BuildCFG(fd.Body, info)
+	var readNode, addNode ast.Node
+	var nObj types.Object
+	ast.Inspect(fd.Body, func(m ast.Node) bool {
+		as, ok := m.(*ast.AssignStmt)
+		if !ok {
+			return true
+		}
+		if len(as.Rhs) == 1 {
+			if c, ok := core.Unparen(as.Rhs[0]).(*ast.CallExpr); ok {
+				if sel, ok := c.Fun.(*ast.SelectorExpr); ok && sel.Sel.Name == "Read" && len(as.Lhs) == 2 {
+					readNode = as
+					nObj = core.ObjOf(info, as.Lhs[0])
+				}
+			}
+		}
+		if as.Tok == token.ADD_ASSIGN && len(as.Lhs) == 1 {
+			if f := core.FieldOf(info, as.Lhs[0]); f != nil && f.Name() == "length" {
+				uses := false
+				ast.Inspect(as.Rhs[0], func(k ast.Node) bool {
+					if id, ok := k.(*ast.Ident); ok && nObj != nil && info.Uses[id] == nObj {
+						uses = true
+					}
+					return true
+				})
+				if uses {
+					addNode = as
+				}
+			}
+		}
+		return true
+	})
+	if readNode == nil {
+		rc.Unknown(key, fd.Pos(), "the io.Reader call was not found")
+		return
+	}
+	if addNode == nil {
+		rc.Bad(key, readNode.Pos(), "the number of bytes the reader returned is never added to s.length")
+		return
+	}
+	rb, ri := cf.BlockOf(readNode)
+	ab, ai := cf.BlockOf(addNode)
+	if rb == nil || ab == nil {
+		rc.Unknown(key, fd.Pos(), "nodes not in the CFG")
+		return
+	}
+	reach := cf.ReachableFrom(rb, nil)
+	reach[rb] = true
+	bad := false
+	for _, r := range cf.Returns() {
+		b, i := cf.BlockOf(r)
+		if b == nil || !reach[b] || (b == rb && i < ri) {
+			continue
+		}
+		if (b == ab && ai < i) || (b != ab && cf.Dominates(ab, b)) {
+			continue
+		}
+		bad = true
+		rc.Bad(key, r.Pos(), "this return is reached after r.Read without passing `%s`: bytes delivered together with io.EOF (or an error) stay outside the window, and the last piece of the document is not seen", core.Src(p.Fset, addNode))
+		break
+	}
+	if !bad {
+		rc.OK(key, addNode.Pos(), "`%s` lies on every path from the Read call to a return", core.Src(p.Fset, addNode))
+	}
+}
